@@ -57,6 +57,13 @@ func (c *Ctx) constsIn(pk *packages.Package, n ast.Node) (chars map[rune]bool, s
 				}
 			}
 		}
+		if bl, ok := e.(*ast.BasicLit); ok && bl.Kind == token.CHAR {
+			if tv, ok := info.Types[e]; ok && tv.Value != nil {
+				if v, ok := constant.Int64Val(tv.Value); ok {
+					chars[rune(v)] = true
+				}
+			}
+		}
 		if id, ok := e.(*ast.Ident); ok {
 			if v, isVar := info.Uses[id].(*types.Var); isVar && v.Pkg() == pk.Types && v.Parent() == pk.Types.Scope() {
 				if s, ok := c.byteVarText(pk, v); ok {
@@ -1149,4 +1156,230 @@ func derefType(t types.Type) types.Type {
 		return p.Elem()
 	}
 	return t
+}
+
+// R09.24: what an escape decodes to is escaped again where the new delimiter gives it a meaning.
+func (c *Ctx) r0924(pk *packages.Package) {
+	const rule = "R09.24"
+	c.R.Rule(rule, "js.replaceEscapes decodes escapes (\\\\x24, \\\\u0024, \\\\44) and puts a backslash in front of the result where it would end the literal (the decoded byte is the quote). Inside a template literal `${` starts a substitution, so a decoded `$` or `{` needs the backslash as well: `` `\\\\x24{a}` `` must not become `` `${a}` ``. Sibling agreement: every if statement of replaceEscapes that compares the decoded value with `quote` and re-escapes (stores a backslash) also names '$' and '{' in its condition")
+	info := pk.TypesInfo
+	fd := c.fn(rule, pk, "replaceEscapes")
+	if fd == nil {
+		return
+	}
+	var quote types.Object
+	for _, f := range fd.Type.Params.List {
+		for _, nm := range f.Names {
+			if nm.Name == "quote" || (quote == nil && isByteType(info.TypeOf(f.Type))) {
+				quote = info.Defs[nm]
+			}
+		}
+	}
+	n := 0
+	ast.Inspect(fd.Body, func(x ast.Node) bool {
+		ifs, ok := x.(*ast.IfStmt)
+		if !ok {
+			return true
+		}
+		// compares with quote by ==
+		cmp := false
+		ast.Inspect(ifs.Cond, func(z ast.Node) bool {
+			if be, ok := z.(*ast.BinaryExpr); ok && be.Op == token.EQL {
+				for _, pr := range [][2]ast.Expr{{be.X, be.Y}, {be.Y, be.X}} {
+					if id, ok := ast.Unparen(pr[0]).(*ast.Ident); ok && info.Uses[id] == quote {
+						if _, isK := intConst(info, pr[1]); !isK {
+							cmp = true // a value is compared with the delimiter (not: the delimiter with a constant)
+						}
+					}
+				}
+			}
+			return true
+		})
+		if !cmp {
+			return true
+		}
+		// the body stores a backslash (directly in this body, not in a nested if of another test)
+		stores := false
+		ast.Inspect(ifs.Body, func(z ast.Node) bool {
+			if inner, ok := z.(*ast.IfStmt); ok && inner != ifs {
+				return false
+			}
+			if as, ok := z.(*ast.AssignStmt); ok && len(as.Rhs) == 1 {
+				if v, isK := intConst(info, as.Rhs[0]); isK && v == '\\' {
+					stores = true
+				}
+			}
+			if ce, ok := z.(*ast.CallExpr); ok {
+				for _, a := range ce.Args {
+					if v, isK := intConst(info, a); isK && v == '\\' {
+						stores = true
+					}
+				}
+			}
+			return true
+		})
+		if !stores {
+			return true
+		}
+		n++
+		chars, _, _ := c.constsIn(pk, ifs.Cond)
+		c.R.Check(chars['$'] && chars['{'], rule, fmt.Sprintf("js.replaceEscapes/re-escape#%d covers `$` and `{` for template literals", n), c.pos(ifs), "the condition names '$' and '{'",
+			"a decoded character is escaped again when it equals the delimiter, but not when it is `$` or `{` inside a template literal: `` `\\x24{a}` `` is printed as `` `${a}` ``, a substitution")
+		return true
+	})
+	c.R.Floor(rule, "re-escaping tests in replaceEscapes", n, 3)
+}
+
+func isByteType(t types.Type) bool {
+	b, ok := t.Underlying().(*types.Basic)
+	return ok && b.Kind() == types.Uint8
+}
+
+// R09.25: `\0` is written only where no digit follows.
+func (c *Ctx) r0925(pk *packages.Package) {
+	const rule = "R09.25"
+	c.R.Rule(rule, "`\\\\0` followed by a digit is a legacy octal escape (and a syntax error in strict mode and in templates): `\"\\\\0005\"` is NUL followed by 5, `\"\\\\05\"` is U+0005. In js.replaceEscapes every store of the character '0' behind a backslash (the rewrite of a NUL escape to `\\\\0`) is reached only through a test of the byte that follows the escape against the digits (a condition with a digit constant between '7' and '9' on an index of the buffer, or the end of the buffer)")
+	info := pk.TypesInfo
+	fd := c.fn(rule, pk, "replaceEscapes")
+	if fd == nil {
+		return
+	}
+	g := c.graph(pk, fd)
+	n := 0
+	for _, y := range g.Nodes {
+		as, ok := y.Stmt.(*ast.AssignStmt)
+		if !ok || y.Kind != flow.KStmt || len(as.Lhs) != 1 || len(as.Rhs) != 1 {
+			continue
+		}
+		if v, isK := intConst(info, as.Rhs[0]); !isK || v != '0' {
+			continue
+		}
+		if _, isIx := as.Lhs[0].(*ast.IndexExpr); !isIx {
+			continue
+		}
+		// `\x00` is spelled with an x in front: not the short form
+		if blk, ok := c.P.Parent(as).(*ast.BlockStmt); ok {
+			hasX := false
+			for _, st := range blk.List {
+				if a2, ok := st.(*ast.AssignStmt); ok && len(a2.Rhs) == 1 {
+					if v, isK := intConst(info, a2.Rhs[0]); isK && v == 'x' {
+						hasX = true
+					}
+				}
+			}
+			if hasX {
+				continue
+			}
+		}
+		n++
+		followTest := func(q *flow.Node) bool {
+			if (q.Kind != flow.KTrue && q.Kind != flow.KFalse) || q.Of == nil || q.Of.Kind != flow.KCond {
+				return false
+			}
+			e := q.Of.Expr
+			// only tests made in the knowledge that the escape denotes NUL (dominated by `v == 0`): the tests that parse
+			// the digits of the escape look the same
+			knows := false
+			for _, f := range g.DomFacts(q.Of) {
+				if be, ok := ast.Unparen(f.Test.Expr).(*ast.BinaryExpr); ok && f.Test.Kind == flow.KCond && be.Op == token.EQL && f.Value {
+					if v, isK := intConst(info, be.Y); isK && v == 0 {
+						knows = true
+					}
+				}
+			}
+			if !knows {
+				return false
+			}
+			if strings.Contains(nospace(str(e)), "len(") {
+				return true
+			}
+			chars, _, _ := c.constsIn(pk, e)
+			hasIndex := false
+			ast.Inspect(e, func(z ast.Node) bool {
+				if _, ok := z.(*ast.IndexExpr); ok {
+					hasIndex = true
+				}
+				return true
+			})
+			return hasIndex && (chars['9'] || chars['8'] || chars['7'] || chars['0'])
+		}
+		// from the test that the escape denotes NUL (num == 0 / the escape's digits) — approximated by the head of the
+		// enclosing branch of the escape syntax: the nearest dominating outcome whose condition names the escape letter or a digit range
+		var head *flow.Node
+		for _, f := range g.DomFacts(y) {
+			if f.Test.Kind != flow.KCond {
+				continue
+			}
+			chars, _, _ := c.constsIn(pk, f.Test.Expr)
+			if chars['u'] || chars['x'] || chars['7'] && chars['0'] {
+				for _, q := range g.Nodes {
+					if (q.Kind == flow.KTrue && f.Value || q.Kind == flow.KFalse && !f.Value) && q.Of == f.Test {
+						head = q
+					}
+				}
+			}
+		}
+		if head == nil {
+			c.R.Unres(rule, fmt.Sprintf("js.replaceEscapes/NUL written as \\0#%d", n), c.pos(as), "the branch of the escape syntax was not found")
+			continue
+		}
+		y := y
+		hd := head
+		p := g.Path(flow.Search{From: []*flow.Node{head}, Goal: func(q *flow.Node) bool { return q == y }, Avoid: func(q *flow.Node) bool { return followTest(q) || !g.Dominates(hd, q) }, Track: true})
+		c.R.Check(p == nil, rule, fmt.Sprintf("js.replaceEscapes/NUL written as \\0#%d only where no digit follows", n), c.pos(as), "behind a test of the following byte", "a NUL escape is shortened to `\\0` without looking at the byte that follows it: `\"\\0005\"` becomes `\"\\05\"`, another character: "+pathStr(c, g, p))
+	}
+	c.R.Floor(rule, "rewrites of a NUL escape to \\0", n, 2)
+}
+
+// R01.44: a call is replaced by an operator expression only when its arguments are what is written.
+func (c *Ctx) r0144(pk *packages.Package) {
+	const rule = "R01.44"
+	c.R.Rule(rule, "the rewrites of builtin calls in jsMinifier.minifyExpr (case *js.CallExpr: Math.pow → **, Number(true) → 1 …) read the k-th argument as the k-th operand. With a spread argument (`Math.pow(a,...b)`) the k-th argument expression is not the k-th argument, and an optional call (`Math.pow?.(a,b)`) is not a call of the builtin for certain. Every `break` of the case that ends such a rewrite is dominated by the false outcome of a test of the arguments' Rest flag — directly, or through a boolean that is set under a test of `.Rest`")
+	info := pk.TypesInfo
+	fd := c.fn(rule, pk, "jsMinifier.minifyExpr")
+	if fd == nil {
+		return
+	}
+	g := c.graph(pk, fd)
+	// booleans that stand for "some argument is a spread": assigned true under a condition that mentions .Rest, or from an expression with .Rest
+	flags := map[types.Object]bool{}
+	ast.Inspect(fd.Body, func(x ast.Node) bool {
+		ifs, ok := x.(*ast.IfStmt)
+		if !ok || !strings.Contains(nospace(str(ifs.Cond)), ".Rest") {
+			return true
+		}
+		for _, st := range ifs.Body.List {
+			if as, ok := st.(*ast.AssignStmt); ok && len(as.Lhs) == 1 && len(as.Rhs) == 1 && nospace(str(as.Rhs[0])) == "true" {
+				if id, ok := as.Lhs[0].(*ast.Ident); ok {
+					if o := info.Uses[id]; o != nil {
+						flags[o] = true
+					}
+				}
+			}
+		}
+		return true
+	})
+	n := 0
+	for _, y := range g.Nodes {
+		br, ok := y.Stmt.(*ast.BranchStmt)
+		if !ok || y.Kind != flow.KStmt || br.Tok != token.BREAK || c.caseLabel(br) != "case *js.CallExpr" {
+			continue
+		}
+		n++
+		good := false
+		for _, f := range g.DomFacts(y) {
+			if f.Value || f.Test.Kind != flow.KCond {
+				continue
+			}
+			e := ast.Unparen(f.Test.Expr)
+			if strings.Contains(nospace(str(e)), ".Rest") {
+				good = true
+			}
+			if id, ok := e.(*ast.Ident); ok && flags[info.Uses[id]] {
+				good = true
+			}
+		}
+		c.R.Check(good, rule, fmt.Sprintf("js.jsMinifier.minifyExpr/case *js.CallExpr/rewrite#%d only for calls without spread arguments", n), c.pos(br), "behind a test of the arguments' Rest flag", "a builtin call is replaced by an operator expression built from its argument expressions without a test that none of them is a spread: `Math.pow(a,...b)` becomes `a**b`")
+	}
+	c.R.Floor(rule, "rewrites of builtin calls", n, 5)
 }
